@@ -300,7 +300,7 @@ func (r *Reader) parseBenchmarkLine(line []byte) *SyntaxError {
 		// Tidy the value.
 		tidyVal, tidyUnit := benchunit.Tidy(val, unit)
 		var v Value
-		if tidyVal == val {
+		if unit == tidyUnit {
 			v = Value{Value: val, Unit: unit}
 		} else {
 			v = Value{Value: tidyVal, Unit: tidyUnit, OrigValue: val, OrigUnit: unit}
